@@ -170,6 +170,99 @@ def wsum [Mul K] [Add K] [Zero K] : List (KP K) → K
 def keepNew [Zero K] [DecidableEq K] (d : K) : Bool := decide (d ≠ 0)
 def keepOld (tau : Rat) (d : Rat) : Bool := decide ((if d < 0 then -d else d) > tau)
 
+/-! ### storage names
+
+  The model above lets every K-point carry "its" file (`KP.file`).  In the code a file is reached through a NAME:
+  `K_list[ik].set_storage_path(get_Kpoint_storage_path(file_Klist_path, ik))` gives `_Kp-<ik>.pickle`, `dump_result`
+  writes `pickle.dump(self.result)` to that path and `get_dumped_result` reads it back.  This section models the
+  directory as a map name → content and the naming discipline of run(), to justify the abstraction: the name of a
+  K-point is its position in `K_list` at the moment of the assignment, positions of evaluated points never change,
+  so no two K-points ever share a file.  Two other disciplines (seeded defects T-C10 / T-C11) are kept as `NameRule`
+  alternatives to document why they are wrong. -/
+
+/-- a K-point as far as storage is concerned -/
+structure NP (K : Type) where
+  r : K                  -- what paralfunc returns for it
+  ev : Bool              -- was_evaluated_flag
+  name : Option Nat      -- result_storage_path = _Kp-<name>.pickle   (None: not assigned yet)
+
+/-- when the storage name is assigned -/
+inductive NameRule
+  | atIterStart      -- real code: at the top of the loop body, `for ik in range(nk_prev, len(K_list))`, name = ik
+  | beforeDelete     -- T-C10: right after the divide() loop, BEFORE exclude_equiv_points deletes duplicates
+  | perRunCounter    -- T-C11: in process(), name = (K-points processed by THIS call so far) + position in the batch
+  deriving DecidableEq
+
+structure NState (K : Type) where
+  pts : List (NP K)          -- K_list
+  files : List (Nat × K)     -- directory: the most recent write of a name comes first
+  nkPrev : Nat               -- nk_prev
+  counter : Nat              -- `counter` of run(): K-points processed by this call
+  err : Bool                 -- dump_result without a storage path
+
+def lookupFile (files : List (Nat × K)) (n : Nat) : Option K := (files.find? (fun e => e.1 == n)).map (·.2)
+
+/-- `get_dumped_result` -/
+def readBack (s : NState K) (p : NP K) : Option K :=
+  match p.name with
+  | some n => lookupFile s.files n
+  | none => none
+
+/-- `for ik in range(nk_prev, len(K_list)): K_list[ik].set_storage_path(path(ik))`; `off` = index of the head -/
+def assignNames (nkPrev : Nat) : Nat → List (NP K) → List (NP K)
+  | _, [] => []
+  | off, p :: ps => (if nkPrev ≤ off then { p with name := some off } else p) :: assignNames nkPrev (off + 1) ps
+
+/-- process() in dump mode: every K-point that is not evaluated is evaluated and dumped under its name.
+    `ctr` = name given by the per-run-counter rule to the next processed point (`none`: the rule is not in force). -/
+def processN : Option Nat → List (NP K) → List (Nat × K) → List (NP K) × List (Nat × K) × Nat × Bool
+  | _, [], files => ([], files, 0, false)
+  | ctr, p :: ps, files =>
+    if p.ev then
+      let rest := processN ctr ps files
+      (p :: rest.1, rest.2.1, rest.2.2.1, rest.2.2.2)
+    else
+      let nm := match ctr with | some c => some c | none => p.name
+      match nm with
+      | some n =>
+        let rest := processN (ctr.map (· + 1)) ps ((n, p.r) :: files)
+        ({ p with ev := true, name := some n } :: rest.1, rest.2.1, rest.2.2.1 + 1, rest.2.2.2)
+      | none =>
+        let rest := processN ctr ps files
+        ({ p with ev := true } :: rest.1, rest.2.1, rest.2.2.1 + 1, true)
+
+def removeNP : Nat → List (NP K) → List (NP K)
+  | _, [] => []
+  | 0, _ :: ps => ps
+  | j + 1, p :: ps => p :: removeNP j ps
+
+/-- run-level `exclude_equiv_points`: delete the new (not evaluated) point at position `j` -/
+def deleteNew (pts : List (NP K)) (j : Nat) : List (NP K) :=
+  match pts[j]? with
+  | some q => if q.ev then pts else removeNP j pts
+  | none => pts
+
+/-- one event of a campaign -/
+inductive NEvent (K : Type)
+  | iter (children : List K) (deletes : List Nat)   -- one pass of the loop: the new points appended by the divide()
+                                                    -- calls (iteration 0: the initial grid), then the deletions
+  | restart                                         -- a new call run(restart=True): K_list re-read from K_list.pickle
+                                                    -- (identical points, names included), files stay, counter = 0
+
+def nstep (rule : NameRule) (s : NState K) : NEvent K → NState K
+  | NEvent.restart => { s with nkPrev := s.pts.length, counter := 0 }
+  | NEvent.iter children deletes =>
+    let appended := s.pts ++ children.map (fun r => ({ r := r, ev := false, name := none } : NP K))
+    let named1 := if rule = NameRule.beforeDelete then assignNames s.nkPrev 0 appended else appended
+    let pruned := deletes.foldl deleteNew named1
+    let named2 := if rule = NameRule.atIterStart then assignNames s.nkPrev 0 pruned else pruned
+    let pr := processN (if rule = NameRule.perRunCounter then some s.counter else none) named2 s.files
+    { pts := pr.1, files := pr.2.1, nkPrev := pr.1.length, counter := s.counter + pr.2.2.1,
+      err := s.err || pr.2.2.2 }
+
+def nrun (rule : NameRule) (events : List (NEvent K)) : NState K :=
+  events.foldl (nstep rule) { pts := [], files := [], nkPrev := 0, counter := 0, err := false }
+
 /-! ### driver -/
 open WB.IO
 
@@ -211,7 +304,33 @@ def showStateC10 (s : State Rat) : String :=
   showOpt s.resultAll ++ "@" ++ showRats s.factors ++ "@" ++ showRats (s.pts.map (·.f)) ++ "@" ++
     showRat (wsum s.pts) ++ "@" ++ showBool s.err
 
+/-- events separated by `|`: `R` = restart, otherwise `v1,v2,..:j1,j2,..` (children values : deleted positions) -/
+def parseNEvent? (t : String) : Option (NEvent Rat) :=
+  if t = "R" then some NEvent.restart else
+  match t.splitOn ":" with
+  | [vs, ds] => match parseRats? vs, parseNats? ds with
+    | some vs, some ds => some (NEvent.iter vs ds)
+    | _, _ => none
+  | _ => none
+
+def parseRule? : String → Option NameRule
+  | "iterstart" => some NameRule.atIterStart
+  | "beforedelete" => some NameRule.beforeDelete
+  | "counter" => some NameRule.perRunCounter
+  | _ => none
+
+def showOptNats (l : List (Option Nat)) : String :=
+  showListWith (fun o => match o with | some n => toString n | none => "N") "," l
+
 def handle : List String → String
+  | ["names", rule, evs] =>
+    match parseRule? rule, (evs.splitOn "|").mapM parseNEvent? with
+    | some r, some es =>
+      let s := nrun r es
+      showOptNats (s.pts.map (·.name)) ++ "@" ++
+        showListWith (fun p => match readBack s p with | some x => showRat x | none => "X") "," s.pts ++ "@" ++
+        showRats (s.pts.map (·.r)) ++ "@" ++ showBool s.err
+    | _, _ => "bad-op"
   | ["run", rule, mode, rs, fs, iters] =>
     match parseMode? mode, parseRats? rs, parseRats? fs, parseIters? iters with
     | some m, some rs, some fs, some its =>
